@@ -6,7 +6,9 @@ import sys, os, subprocess, json, shutil, re
 out, prop = sys.argv[1], sys.argv[2]
 tier = sys.argv[3] if len(sys.argv) > 3 else "quick"
 ROOT = os.path.dirname(os.path.dirname(os.path.abspath(__file__)))
-assert subprocess.run("git -C /repo status --porcelain", shell=True, capture_output=True, text=True).stdout.strip() == "", "/repo not clean"
+WT = "/tmp/seedwt-%d" % os.getpid()
+subprocess.run("git -C /repo worktree add -q --detach %s" % WT, shell=True, check=True)
+ENV = dict(os.environ, VERIF_REPO=WT)
 for i in sorted(os.listdir(out)):
     d = os.path.join(out, i)
     if not os.path.exists(os.path.join(d, "patch.diff")):
@@ -15,12 +17,12 @@ for i in sorted(os.listdir(out)):
     os.makedirs(dst, exist_ok=True)
     for f in os.listdir(d):
         shutil.copy(os.path.join(d, f), dst)
-    a = subprocess.run(["git", "-C", "/repo", "apply", os.path.join(d, "patch.diff")], capture_output=True, text=True)
+    a = subprocess.run(["git", "-C", WT, "apply", os.path.join(d, "patch.diff")], capture_output=True, text=True)
     try:
         if a.returncode != 0:
             res = dict(detected=None, detail="patch does not apply: " + a.stderr[-300:])
         else:
-            r = subprocess.run([os.path.join(ROOT, "check"), prop, "--tier", tier], cwd=ROOT, capture_output=True, text=True)
+            r = subprocess.run([os.path.join(ROOT, "check"), prop, "--tier", tier], cwd=ROOT, capture_output=True, text=True, env=ENV)
             viol = [l for l in r.stdout.split("\n") if l.startswith("VIOLATION")]
             detail = []
             for v in viol[:3]:
@@ -32,10 +34,13 @@ for i in sorted(os.listdir(out)):
                     detail.append(dict(line=v))
             res = dict(detected=bool(viol), exit=r.returncode, violations=len(viol), detail=detail, summary=r.stderr.strip().split("\n")[-1][:300])
     finally:
-        subprocess.run("git -C /repo checkout -- . && git -C /repo clean -fdq", shell=True)
+        subprocess.run("git -C %s checkout -- . && git -C %s clean -fdq" % (WT, WT), shell=True)
     mp = os.path.join(dst, "meta.json")
     meta = json.load(open(mp)) if os.path.exists(mp) else {}
     meta["check_result"] = dict(cmd=f"./check {prop} --tier {tier}", **res)
     json.dump(meta, open(mp, "w"), indent=1)
     print(prop, i, "detected" if res.get("detected") else "MISSED", res.get("summary", res.get("detail")))
 shutil.rmtree(os.path.join(ROOT, "replays"), ignore_errors=True)
+
+subprocess.run("git -C /repo worktree remove --force %s" % WT, shell=True)
+shutil.rmtree(os.path.join(ROOT, ".build-" + os.path.basename(WT)), ignore_errors=True)
